@@ -93,7 +93,8 @@ def calculate_eta_shrinkage(
 
     param_names = [str(param) for param in model.random_variables.etas.covariance_matrix.diagonal()]
     diag_ests = pe[param_names]
-    diag_ests.index = individual_estimates.columns
+    diag_ests.index = model.random_variables.etas.names
+    diag_ests = diag_ests[individual_estimates.columns]
     if not sd:
         shrinkage = 1 - (individual_estimates.var() / diag_ests)
     else:
@@ -209,13 +210,14 @@ def calculate_individual_shrinkage(
     param_names = [s.name for s in diag]
 
     diag_ests = pe[param_names]
+    diag_ests.index = model.random_variables.etas.names
 
     def fn(row, ests):
         names = row[0].index
-        ser = pd.Series(np.diag(row[0].values) / ests, index=names)
+        ser = pd.Series(np.diag(row[0].values) / ests[names].values, index=names)
         return ser
 
-    ish = pd.DataFrame(cov).apply(fn, axis=1, ests=diag_ests.values)
+    ish = pd.DataFrame(cov).apply(fn, axis=1, ests=diag_ests)
     return ish
 
 
